@@ -8,6 +8,7 @@ import (
 	"path/filepath"
 	"strings"
 	"sync"
+	"time"
 
 	"verif/internal/core"
 )
@@ -34,6 +35,7 @@ type e2eOut struct {
 	Frames     int            `json:"frames_forwarded"`
 	Diverged   []string       `json:"diverged"`
 	DivergedN  int            `json:"diverged_n"`
+	NotRun     int            `json:"not_run"` // stopped early: 25 violations found, or the time budget of the replay was used up
 	NotComp    int            `json:"not_comparable"` // the model path uses a schedule the real loop cannot be made to take
 	Violations []e2eViolation `json:"violations"`
 	Errors     []string       `json:"errors"`
@@ -62,7 +64,7 @@ func e2eBuildBin() error {
 }
 
 // e2eExec runs the bubble binary over items.
-func e2eExec(items []e2eItem) (*e2eOut, error) {
+func e2eExec(items []e2eItem, budget time.Duration) (*e2eOut, error) {
 	if err := e2eBuildBin(); err != nil {
 		return nil, err
 	}
@@ -75,7 +77,7 @@ func e2eExec(items []e2eItem) (*e2eOut, error) {
 	}
 	cmd := exec.Command(e2eBin(), "-test.run", "^TestE2EReplay$", "-test.timeout", "60m")
 	cmd.Dir = filepath.Join(core.VerifDir, "checks")
-	cmd.Env = append(os.Environ(), "E2E_IN="+in, "E2E_OUT="+out)
+	cmd.Env = append(os.Environ(), "E2E_IN="+in, "E2E_OUT="+out, "E2E_BUDGET="+budget.String())
 	log, err := cmd.CombinedOutput()
 	ob, rerr := os.ReadFile(out)
 	if rerr != nil {
@@ -97,7 +99,7 @@ func init() {
 		if err := json.Unmarshal(data, &it); err != nil {
 			return false, "", err
 		}
-		res, err := e2eExec([]e2eItem{it})
+		res, err := e2eExec([]e2eItem{it}, 0)
 		if err != nil {
 			return false, "", err
 		}
@@ -113,17 +115,20 @@ func init() {
 }
 
 // runC05E2E replays the collected model paths on the real engines and folds the outcome into the evidence.
-func runC05E2E(c *core.Ctx, items []e2eItem) {
+func runC05E2E(c *core.Ctx, items []e2eItem, budget time.Duration) {
 	if len(items) == 0 {
 		return
 	}
-	res, err := e2eExec(items)
+	res, err := e2eExec(items, budget)
 	if err != nil {
 		c.EngineError(err.Error())
 		return
 	}
 	c.AddTraces(int64(res.Matched))
 	c.Set("real_engine_paths_replayed", res.Replayed)
+	if res.NotRun > 0 {
+		c.Cap(fmt.Sprintf("real-engine replay stopped early (time budget %v or 25 violations): %d of %d paths not replayed", budget, res.NotRun, res.Replayed+res.NotRun))
+	}
 	c.Set("real_engine_paths_matching_model_frame_by_frame", res.Matched)
 	c.Set("real_engine_frames_forwarded", res.Frames)
 	for _, v := range res.Violations {
